@@ -18,14 +18,16 @@ pub struct SynOpts {
     pub consts: bool,
     /// `type function` declarations
     pub type_functions: bool,
+    /// Luau-only string escapes (\x \u{} \z): no lowering rule targets them
+    pub luau_escapes: bool,
 }
 
 impl SynOpts {
     pub fn lua51() -> Self {
-        SynOpts { luau: false, types: false, max_stmts: 8, max_depth: 4, attributes: false, consts: false, type_functions: false }
+        SynOpts { luau: false, types: false, max_stmts: 8, max_depth: 4, attributes: false, consts: false, type_functions: false, luau_escapes: false }
     }
     pub fn luau() -> Self {
-        SynOpts { luau: true, types: true, max_stmts: 8, max_depth: 4, attributes: true, consts: true, type_functions: false }
+        SynOpts { luau: true, types: true, max_stmts: 8, max_depth: 4, attributes: true, consts: true, type_functions: false, luau_escapes: true }
     }
 }
 
@@ -120,7 +122,7 @@ impl<'a, 'b> Syn<'a, 'b> {
             ("\"10\"", b"10"),
             ("\"\\0\"", b"\0"),
         ];
-        if self.o.luau && self.t.bool(40) {
+        if self.o.luau && self.o.luau_escapes && self.t.bool(40) {
             let lp: [(&str, &[u8]); 4] = [("\"\\x41\"", b"A"), ("\"\\u{48}i\"", b"Hi"), ("\"a\\z\n   b\"", b"ab"), ("'\\u{e9}'", "é".as_bytes())];
             let (r, v) = lp[self.t.choose(lp.len())];
             return Expr::Str { raw: r.to_string(), value: v.to_vec() };
@@ -261,13 +263,11 @@ impl<'a, 'b> Syn<'a, 'b> {
             return vec![];
         }
         self.stat("attribute");
+        // grouped attributes `@[a, b]` are not accepted by darklua's parser (full_moon) yet: out of domain
         match self.t.choose(3) {
             0 => vec![Attribute::Name("native".into())],
             1 => vec![Attribute::Name("checked".into()), Attribute::Name("native".into())],
-            _ => vec![Attribute::Group(vec![
-                AttributeElement { name: "deprecated".into(), args: None },
-                AttributeElement { name: "native".into(), args: None },
-            ])],
+            _ => vec![Attribute::Name("deprecated".into())],
         }
     }
 
